@@ -620,7 +620,7 @@ def ex_run(seed, prop, i, fault_free, collectors=("zero", "copy", "sweep", "swip
     if cfg.random() < 0.15 and nobjects < 20000:
         # without TLABs every allocation takes the allocator locks: keep such runs short
         flags.append("--disable-tlab")
-    if gc == "swiper" and cfg.random() < 0.4:
+    if gc == "swiper" and cfg.random() < (0.7 if script[0] == 1 else 0.4):
         flags.append("--gc-young-size=%dM" % cfg.choice([1, 2]))
     faults = tb.draw_faults(cfg, fault_free)
     tb.cap_fault_rates(faults, 30000 + nobjects, gc, heap_mb, False, run_budget_ms=600)
